@@ -137,6 +137,117 @@ func threadRun(c *harness.C, variant string, r *explore.Recorder) *tOut {
 	return o
 }
 
+// stuckRun: two signing sessions (topics a and b) are live on one Scheme. A dispatcher thread
+// delivers a point-to-point message for topic a whose backend never returns from OnMsg (an inbound
+// queue nobody drains any more); another dispatcher thread then delivers a message for topic b.
+// The second delivery must complete: sessions on different topics do not influence each other.
+type stuckBackend struct {
+	entered chan struct{}
+	block   chan struct{}
+	got     *atomic.Int32
+}
+
+func (q *stuckBackend) ClassifyMsg(b []byte) (uint8, bool, error)      { return s.Classify(b) }
+func (q *stuckBackend) Init([]uint16, int, func([]byte, bool, uint16)) {}
+func (q *stuckBackend) OnMsg(b []byte, _ uint16, _ bool) {
+	if strings.HasSuffix(string(b), "block") {
+		<-q.block
+		return
+	}
+	sched.Hidden(func() { q.got.Add(1) })
+}
+func (q *stuckBackend) SetShareData([]byte) error    { return nil }
+func (q *stuckBackend) ThresholdPK() ([]byte, error) { return []byte("pk"), nil }
+func (q *stuckBackend) Sign(ctx context.Context, _ []byte) ([]byte, error) {
+	q.entered <- struct{}{}
+	<-ctx.Done()
+	return nil, ctx.Err()
+}
+
+func stuckRun(c *harness.C, r *explore.Recorder) (passed int32, unfin []string, trace []string) {
+	rec := c.Bubble(func() {
+		mem := func() map[tss.UniversalID]tss.PartyID { return map[tss.UniversalID]tss.PartyID{1: 1, 2: 2, 3: 3} }
+		send := func(uint8, []byte, []byte, ...uint16) {}
+		var got atomic.Int32
+		entered := make(chan struct{}, 2)
+		block := make(chan struct{})
+		p := threshold.LoudScheme(1, world.NopLogger{}, nil, func(uint16) tss.Signer { return &stuckBackend{entered: entered, block: block, got: &got} }, 1, send, mem)
+		scm := p.(*threshold.Scheme)
+		scm.SyncFactory = func([]uint16, func([]byte), func([]byte, uint16)) tss.Synchronizer {
+			return &ySync{members: []uint16{1, 2}}
+		}
+		p.SetStoredData([]byte("x"))
+		ctx, cancel := context.WithCancel(context.Background())
+		done := make(chan struct{}, 2)
+		for _, t := range []string{"a", "b"} {
+			t := t
+			go func() {
+				p.Sign(ctx, world.Sha([]byte("d")), t)
+				done <- struct{}{}
+			}()
+		}
+		<-entered
+		<-entered
+		sc := sched.New()
+		sc.Quantum, sc.Horizon = time.Second, 3
+		msg := func(topic, body string) *tss.IncMessage {
+			return &tss.IncMessage{Data: append([]byte{255, s.ClassP2P, 0}, []byte(body)...), Source: 2, MsgType: uint8(tss.MsgTypeMPC), Topic: world.Sha([]byte(topic))}
+		}
+		sc.Go("Da", func() { p.HandleMessage(msg("a", "block")) })
+		sc.Go("Db", func() { p.HandleMessage(msg("b", "pass")) })
+		sc.Run(r)
+		unfin = sc.WaitAll()
+		trace = sc.Trace
+		sc.Close()
+		passed = got.Load()
+		close(block)
+		cancel()
+		<-done
+		<-done
+	})
+	if rec != nil && !harness.IsLeakPanic(rec) {
+		panic(rec)
+	}
+	return
+}
+
+func stuckCase(bound int) harness.Case {
+	return harness.Case{ID: "threads/stuck-session", Run: func(c *harness.C) {
+		var passed int32
+		var unfin, trace []string
+		reported := false
+		e := &explore.Explorer{Stop: c.Expired}
+		e.Run = func(r *explore.Recorder) {
+			c.Exec(fmt.Sprintf("[threads/stuck-session] %v", r.Prefix))
+			passed, unfin, trace = stuckRun(c, r)
+		}
+		e.Visit = func(r *explore.Recorder) {
+			c.Add("executions", 1)
+			c.Add("transitions", len(trace))
+			c.NewRaceReports()
+			stuckB := false
+			for _, u := range unfin {
+				if u == "Db" {
+					stuckB = true
+				}
+			}
+			if (stuckB || passed != 1) && !reported {
+				reported = true
+				c.Violation("different-topics-do-not-interfere", "c12-stuck-session-blocks-other-topic", fmt.Sprintf("schedule %v (%s): the backend of the session on topic a never returns from OnMsg; the delivery for the session on topic b did not complete (unfinished threads %v, messages handed to b's backend: %d)", explore.Trim(r.Choices()), strings.Join(trace, " "), unfin, passed), threadReplay{"stuck-session", explore.Trim(r.Choices())})
+			}
+			c.Outcome("stuck|" + strings.Join(trace, ";"))
+		}
+		if c.Replay != nil {
+			var rp threadReplay
+			if json.Unmarshal(c.Replay, &rp) == nil && rp.Threads == "stuck-session" {
+				e.Explore(rp.Choices, nil, -1)
+			}
+			return
+		}
+		e.Explore(nil, nil, bound)
+	}}
+}
+
 type threadReplay struct {
 	Threads string `json:"threads"`
 	Choices []int  `json:"choices"`
@@ -151,6 +262,7 @@ func threadCases(c *harness.C) []harness.Case {
 		bound = 3
 	}
 	var cases []harness.Case
+	cases = append(cases, stuckCase(bound))
 	for _, v := range []string{"same-topic", "different-topics", "keygen"} {
 		for k := 0; k < threadShards; k++ {
 			v, k := v, k
